@@ -490,18 +490,30 @@ Qed.
 Definition neg_tile : img := mkImg 1 1 I16 (fun _ _ => PxI (-8)).
 Definition neg_children : list (option img) := [Some neg_tile; Some neg_tile; Some neg_tile; Some neg_tile].
 
+Lemma merge_tiles_early u f k cs :
+  merge_tiles_gen u f k cs = Some None -> forall c, In c cs -> c = None.
+Proof.
+  unfold merge_tiles_gen. destruct (first_present cs) as [c|] eqn:E.
+  - destruct (update_all u _ _); discriminate.
+  - intros _. apply first_present_none; exact E.
+Qed.
+
 Lemma merge_int_refuted_lemma : ~ merge_pixel_statement merge_tiles (fun _ => True).
 Proof.
   intros H.
-  destruct (H Npy 1 (Some neg_tile) (Some neg_tile) (Some neg_tile) (Some neg_tile)
-              (mkImg 1 1 I16 (fun i j => avg4 (PxI 0) (PxI 0) (PxI 0) (PxI 0))))
-    as (ch0 & A & _ & _ & _ & _ & F).
-  - lia.
-  - intros ch Hin. assert (ch = neg_tile) as -> by (cbn in Hin; intuition congruence).
-    split; [intros r c; reflexivity | cbn; lia].
-  - exact I.
-  - vm_compute. reflexivity.
-  - cbn in A. injection A as <-. specialize (F 0 0 ltac:(lia) ltac:(lia)). vm_compute in F. discriminate.
+  assert (Hok : children_ok neg_children).
+  { intros ch Hin. assert (ch = neg_tile) as -> by (cbn in Hin; intuition congruence).
+    split; [intros r c; reflexivity | cbn; lia]. }
+  assert (E' : match merge_tiles Npy 1 neg_children with None => false | _ => true end = true)
+    by (vm_compute; reflexivity).
+  destruct (merge_tiles Npy 1 neg_children) as [[out|]|] eqn:E; [| |discriminate].
+  - destruct (H Npy 1 _ _ _ _ out ltac:(lia) Hok I E) as (ch0 & A & _ & _ & _ & _ & F).
+    destruct (merge_pixel_gen upd_px Npy 1 _ _ _ _ out ltac:(lia) (children_ok_dims _ Hok) E)
+      as (ch1 & A1 & _ & _ & _ & _ & G).
+    cbn in A, A1. injection A as <-. injection A1 as <-.
+    specialize (F 0 0 ltac:(lia) ltac:(lia)). specialize (G 0 0 ltac:(lia) ltac:(lia)).
+    rewrite G in F. vm_compute in F. discriminate.
+  - pose proof (merge_tiles_early upd_px Npy 1 neg_children E (Some neg_tile) (or_introl eq_refl)). discriminate.
 Qed.
 
 Lemma merge_tiles_shape u f k cs out :
@@ -516,13 +528,6 @@ Proof.
   apply first_present_in in E. specialize (H _ E). discriminate.
 Qed.
 
-Lemma merge_tiles_early u f k cs :
-  merge_tiles_gen u f k cs = Some None -> forall c, In c cs -> c = None.
-Proof.
-  unfold merge_tiles_gen. destruct (first_present cs) as [c|] eqn:E.
-  - destruct (update_all u _ _); discriminate.
-  - intros _. apply first_present_none; exact E.
-Qed.
 
 (* averaging rules, as statements about avg4 *)
 Lemma avg4_float x y z w : avg4 (PxF x) (PxF y) (PxF z) (PxF w) = PxF (favg [x; y; z; w]).
@@ -583,6 +588,9 @@ Proof. unfold children. cbn [In]. intros [<-|[<-|[<-|[<-|[]]]]]; reflexivity. Qe
 
 Lemma pos_eqb_neq a b : a <> b -> pos_eqb a b = false.
 Proof. intros H. destruct (pos_eqb a b) eqn:E; [|reflexivity]. apply pos_eqb_eq in E. contradiction. Qed.
+
+Lemma fmt_eqb_refl f : fmt_eqb f f = true.
+Proof. destruct f; reflexivity. Qed.
 
 Section Cascade.
   Variable u : mode -> pixel -> pixel -> pixel.
@@ -681,7 +689,7 @@ Section Cascade.
         * intros q Hq. rewrite Eff. rewrite pos_eqb_neq; [apply I1; exact Hq|]. intros ->. lia.
         * intros q Hq. apply in_app_or in Hq. destruct Hq as [Hq|[<-|[]]].
           -- rewrite Eff. rewrite pos_eqb_neq; [apply I2; exact Hq|]. intros ->. contradiction.
-          -- rewrite Eff, pos_eqb_refl. replace (fmt_eqb dflt dflt) with true by (destruct dflt; reflexivity).
+          -- rewrite Eff, pos_eqb_refl, fmt_eqb_refl.
              cbn [andb]. symmetry; exact Sp.
         * intros q Hq Hd. rewrite Eff. rewrite pos_eqb_neq.
           -- apply I3; [|exact Hd]. intros X. apply Hq. apply in_or_app; left; exact X.
@@ -704,12 +712,138 @@ Section Cascade.
   Proof.
     intros H.
     assert (I0 : inv [] st0).
-    { split; [|split; [|split]]; auto.
+    { split; [|split; [|split]].
+      - reflexivity.
       - intros p [].
-      - intros p _ Hp. apply upper_empty; exact Hp. }
+      - intros p _ Hp. apply upper_empty; exact Hp.
+      - reflexivity. }
     destruct (cascade_inv order [] st0 st' eq_refl I0 H) as (I1 & I2 & I3 & I4).
     split; [|split]; auto.
     intros p Hp. destruct (in_dec pos_eq_dec p order) as [Hin|Hnin]; [apply I2; exact Hin|].
     rewrite (I3 p Hnin Hp). symmetry. apply not_in_order_none; assumption.
   Qed.
 End Cascade.
+
+(* ------------------------------------------------------------------ *)
+(* packaged statements for Properties/C02.v                             *)
+
+Lemma cascade_spec_full u dflt k orc start st0 order st' :
+  upper_levels_empty dflt st0 start ->
+  valid_order u dflt k orc st0 start order ->
+  cascade_gen u dflt k orc st0 order = Some st' ->
+  (forall p, (pn p < start)%nat ->
+             st' p dflt = pyramid_spec u dflt k orc (fun q => st0 q dflt) (start - pn p) p) /\
+  (forall p, (start <= pn p)%nat -> st' p dflt = st0 p dflt) /\
+  (forall p f, fmt_eqb f dflt = false -> st' p f = st0 p f).
+Proof.
+  intros Hu (V1 & V2 & V3 & V4) H.
+  exact (cascade_spec_lemma u dflt k orc start st0 Hu order V1 V2 V3 V4 st' H).
+Qed.
+
+Lemma cascade_order_independent_lemma u dflt k orc start st0 o1 o2 s1 s2 :
+  upper_levels_empty dflt st0 start ->
+  valid_order u dflt k orc st0 start o1 -> valid_order u dflt k orc st0 start o2 ->
+  cascade_gen u dflt k orc st0 o1 = Some s1 -> cascade_gen u dflt k orc st0 o2 = Some s2 ->
+  forall p f, s1 p f = s2 p f.
+Proof.
+  intros Hu V1 V2 H1 H2 p f.
+  destruct (cascade_spec_full u dflt k orc start st0 o1 s1 Hu V1 H1) as (A1 & B1 & C1).
+  destruct (cascade_spec_full u dflt k orc start st0 o2 s2 Hu V2 H2) as (A2 & B2 & C2).
+  destruct (fmt_eqb f dflt) eqn:Ef.
+  - apply fmt_eqb_eq in Ef. subst f.
+    destruct (Nat.lt_ge_cases (pn p) start) as [Hp|Hp].
+    + rewrite A1, A2 by exact Hp. reflexivity.
+    + rewrite B1, B2 by exact Hp. reflexivity.
+  - rewrite C1, C2 by exact Ef. reflexivity.
+Qed.
+
+Lemma merge_exists_lemma u dflt k orc st p st' :
+  walk_callback_gen u dflt k orc st p = Some st' ->
+  ((forall c, In c (children p) -> st c dflt = None) -> st' = st) /\
+  ((exists c, In c (children p) /\ st c dflt <> None) ->
+   exists m, merge_tiles_gen u dflt k (child_files orc dflt st p) = Some (Some m) /\
+             (is_completely_masked m = false -> encode dflt m <> None) /\
+             forall q f, st' q f = if pos_eqb q p && fmt_eqb f dflt
+                                   then (if is_completely_masked m then None else encode dflt m)
+                                   else st q f).
+Proof.
+  intros H. pose proof (walk_callback_effect u dflt k orc st p st' H) as Eff.
+  split.
+  - intros Hn. rewrite merge_tiles_all_absent in Eff; [exact Eff|].
+    intros oc Hin. unfold child_files in Hin. apply in_map_iff in Hin.
+    destruct Hin as (c & <- & Hc). rewrite (Hn c Hc). reflexivity.
+  - intros (c & Hc & Hne).
+    destruct (merge_tiles_gen u dflt k (child_files orc dflt st p)) as [[m|]|] eqn:EM; [| |contradiction].
+    + exists m. split; [reflexivity|]. split; [|exact Eff].
+      intros Hm. unfold walk_callback_gen in H.
+      assert (E : map (fun c => rres_image (orc c) (read_image dflt st c DNone None None)) (children p)
+                  = child_files orc dflt st p).
+      { unfold child_files. apply map_ext. intros c0. apply read_none_image. }
+      rewrite E, EM in H. unfold write_image in H. rewrite Hm in H. cbn [or_default] in H.
+      destruct (encode dflt m); [discriminate|discriminate].
+    + exfalso. pose proof (merge_tiles_early u dflt k _ EM) as Hall.
+      assert (Hin : In (option_map (decode (orc c)) (st c dflt)) (child_files orc dflt st p)).
+      { unfold child_files. apply in_map_iff. exists c. auto. }
+      specialize (Hall _ Hin). destruct (st c dflt); [discriminate|congruence].
+Qed.
+
+(* a concrete cascade for non-vacuity: two of the four level-1 tiles present,
+   2 x 2 pixel float tiles with a NaN, stored bottom-up (fits) *)
+Definition ex_tile (a : Z) : img :=
+  mkImg 2 2 F32 (fun r c => if (r =? 0) && (c =? 0) then PxF None else PxF (Some (inject_Z (a + 4 * r + 8 * c)))).
+Definition ex_st0 : store :=
+  fun p f => if fmt_eqb f Fits
+             then (if pos_eqb p (mkPos 1 0 0) then Some (FExact (ex_tile 0))
+                   else if pos_eqb p (mkPos 1 1 1) then Some (FExact (ex_tile 100)) else None)
+             else None.
+Definition no_orc : pos -> Z -> Z -> pixel := fun _ _ _ => PxC3 0 0 0.
+Definition ex_root_rows : option (list (list pixel)) :=
+  match cascade Fits 2 no_orc ex_st0 [root] with
+  | Some st' => match st' root Fits with
+                | Some (FExact im) => ex_rows (Some im)
+                | _ => None
+                end
+  | None => None
+  end.
+
+Lemma ex_upper_empty : upper_levels_empty Fits ex_st0 1.
+Proof.
+  intros p Hp. unfold ex_st0. cbn [fmt_eqb].
+  destruct p as [n x y]. cbn [pn] in Hp. assert (n = 0%nat) as -> by lia. reflexivity.
+Qed.
+
+Lemma ex_valid_order : valid_order upd_px Fits 2 no_orc ex_st0 1 [root].
+Proof.
+  split; [|split; [|split]].
+  - intros p [<-|[]]. cbn. lia.
+  - repeat constructor. intros [].
+  - intros l1 p l2 c E Hc Hin. destruct l1 as [|a [|b l1]]; cbn in E.
+    + injection E as <- <-. destruct Hin as [<-|[]]. apply children_depth in Hc. cbn in Hc. discriminate.
+    + injection E as _ E. discriminate.
+    + injection E as _ E. discriminate.
+  - intros p Hp (c & Hc & Hs). destruct p as [n x y]. cbn [pn] in Hp, Hs.
+    assert (n = 0%nat) as -> by lia. cbn [Nat.sub pyramid_spec] in Hs.
+    unfold children in Hc; cbn [pn Quadtree.px py In] in Hc.
+    left. unfold root. f_equal.
+    + destruct Hc as [<-|[<-|[<-|[<-|[]]]]]; unfold ex_st0 in Hs; cbn [fmt_eqb] in Hs;
+        unfold pos_eqb in Hs; cbn [pn Quadtree.px py Nat.eqb andb] in Hs;
+        destruct x as [|x]; try reflexivity; exfalso; apply Hs;
+        destruct x; reflexivity.
+    + destruct Hc as [<-|[<-|[<-|[<-|[]]]]]; unfold ex_st0 in Hs; cbn [fmt_eqb] in Hs;
+        unfold pos_eqb in Hs; cbn [pn Quadtree.px py Nat.eqb andb] in Hs;
+        destruct y as [|y]; try reflexivity; exfalso; apply Hs;
+        destruct x as [|x]; try (destruct x); destruct y; reflexivity.
+Qed.
+
+(* the compact placement description means: child i occupies rows
+   [oy, oy + k) and columns [ox, ox + k) of the buffer with unit steps, where
+   (oy, ox) is the i-th entry of [offsets] *)
+Lemma placement_spec f k :
+  0 < k ->
+  placement f k = flat_map (fun o => [fst o; 1; k; snd o; 1; k]) (offsets (bottom_up f) k).
+Proof.
+  intros Hk. unfold placement, slices_for, offsets.
+  pose proof (sl_lo_view k Hk) as Lo. pose proof (sl_hi_view k Hk) as Hi.
+  destruct (bottom_up f); unfold slices_opposite, slices_matching; cbn [flat_map fst snd app];
+    rewrite ?Lo, ?Hi; reflexivity.
+Qed.
